@@ -216,7 +216,7 @@ def hmc_decisions(h, d, mass, attempts):
 def ensemble_stretch_move_decisions(h, d, nw):
     ev = mc.Events()
     en, s, post, alpha, X = mc.make_ensemble(h, d, nw, ev, max_attempts=2)
-    h.covers(en.EnsembleSampler._EnsembleSampler__proposal, en.EnsembleSampler._EnsembleSampler__advance_walker, en.EnsembleSampler.__init__)
+    h.covers(en.EnsembleSampler.__init__, *mc.priv(en.EnsembleSampler, "_EnsembleSampler__proposal", "_EnsembleSampler__advance_walker"))
     i = h.choice_int("walker", 0, nw - 1)
     X0 = np.array(X).copy()
     Li = post.uf(X0[i])
@@ -229,7 +229,7 @@ def ensemble_stretch_move_decisions(h, d, nw):
         return v
     s.rng.integers = integers
     del ev[:]
-    s._EnsembleSampler__advance_walker(i)
+    mc.find_method(s, ("walker",), "the single-walker update")(i)
     us = [e for e in ev if e[0] == "u"]
     Ls = [e for e in ev if e[0] == "L"]
     moved = not bool(np.all([a is b for a, b in zip(np.asarray(s.walker_positions[i]).ravel(), X0[i].ravel())])) if h.sym else \
@@ -276,7 +276,7 @@ def stretch_distribution_and_reversal(h):
     def z_of(uu):   # the stretch the sampler's own proposal code draws from the uniform variate uu
         s.rng = R(uu)
         s.walker_positions = np.array(X0, dtype=object if h.sym else float)
-        return s._EnsembleSampler__proposal(0)[1]
+        return mc.find_method(s, ("proposal", "stretch"), "the stretch-move proposal")(0)[1]
     h.eq("z(0) == 1/alpha", z_of(0.0 * alpha), 1 / alpha)
     h.eq("z(1) == alpha", z_of(1.0 + 0.0 * alpha), alpha)
     u = h.real("u", lo=0, hi=1)
@@ -294,11 +294,11 @@ def stretch_distribution_and_reversal(h):
     h.le("1/z is a reachable stretch (u' <= 1)", u_back, 1.0, tol=1e-9)
     s.walker_positions = np.array(X0, dtype=object if h.sym else float)
     s.rng = R(u)
-    Y, zz = s._EnsembleSampler__proposal(0)
+    Y, zz = mc.find_method(s, ("proposal", "stretch"), "the stretch-move proposal")(0)
     h.eq("stretch used == z(u)", zz, z)
     s.walker_positions = np.array([Y, X0[1]], dtype=object if h.sym else float)
     s.rng = R(u_back)
-    back, zb = s._EnsembleSampler__proposal(0)
+    back, zb = mc.find_method(s, ("proposal", "stretch"), "the stretch-move proposal")(0)
     h.eq("reverse stretch == 1/z", zb * z, 1.0, tol=1e-7)
     h.eq("the move with stretch 1/z returns to X_i (reversible proposal)", back, X0[0], tol=1e-6)
 
